@@ -13,7 +13,7 @@ def leg(test, module="rt", quick=(1000, 1), thorough=(10000, 16), race=False, ti
                 timeout_s=timeout_s, env=env or {}, fixed=fixed)
 
 HOOK_COMMITS = ["dd392ad"]
-FIX_COMMITS = ["e449346", "ba22cb7", "3039ef0", "273eefb", "cca5970", "2577b44", "d6810d1", "e1987c3", "b1932c7", "c49aa17", "d9e8025", "42ec2de", "5135650", "011d02a"]
+FIX_COMMITS = ["e449346", "ba22cb7", "3039ef0", "273eefb", "cca5970", "2577b44", "d6810d1", "e1987c3", "b1932c7", "c49aa17", "d9e8025", "42ec2de", "5135650", "011d02a", "09939f4"]
 
 ALL_PROPS = ["C%02d" % i for i in range(1, 21)]
 
@@ -221,7 +221,8 @@ CHECKS = {
     ),
     "C11": dict(
         title="The compiler is total: valid IDL yields valid code, bad input a diagnostic",
-        legs=[leg("TestC11Valid", module="idl", quick=(250, 4), thorough=(5000, 16), timeout_s=3000, prefixes=["c11."])],
+        legs=[leg("TestC11Valid", module="idl", quick=(250, 4), thorough=(5000, 12), timeout_s=3000, prefixes=["c11."]),
+              leg("TestC11Invalid", module="idl", quick=(400, 4), thorough=(20000, 4), timeout_s=3000)],
         level="exploration",
         technique="property-based testing (rapid) over generated valid programs x targets x options with per-target well-formedness oracles (go/parser + go/types, javac parser, CPython ast, JSON, HTML, Dart lexical balance); mutation-based and native fuzzing for invalid input",
         rule=("Valid programs (as C10) x 1..5 of 28 target/option combinations (go, java, dart, py, py:asyncio, py:tornado, json, html and their options) x -delim x -r. "
